@@ -267,5 +267,7 @@ m("C01", "C01-constant-pool-merges-signed-zero", "R01-alloc:ConstIndex:zero-cons
 m("C17", "C17-lost-level-resolves-to-bottom-frame", "R17-where:GetStack:frame-only-at-the-exact-level", ("state.go", "\t}\n\t// a negative level falls among frames that tail calls have replaced: nothing is known about them\n\treturn &Debug{}, false", "\t} else if level < 0 && ls.stack.Sp() > 0 {\n\t\treturn &Debug{frame: ls.stack.At(0)}, true\n\t}\n\treturn &Debug{}, false"))
 
 m("C19", "C19-kind-test-before-closed-test", "R19-closed:fileWriteAux:closed-test-before-any-answer", ("iolib.go", "func fileWriteAux(L *LState, file *lFile, idx int) int {\n\terrorIfFileIsClosed(L, file)\n\tif n := fileIsWritable(L, file); n != 0 {\n\t\treturn n\n\t}\n", "func fileWriteAux(L *LState, file *lFile, idx int) int {\n\tif n := fileIsWritable(L, file); n != 0 {\n\t\treturn n\n\t}\n\terrorIfFileIsClosed(L, file)\n"))
+
+m("C15", "C15-char-wraps", "R15-positions:strChar:argument-in-0..255", ("stringlib.go", "\t\tif c < 0 || c > 255 {\n\t\t\tL.ArgError(i, \"invalid value\")\n\t\t}\n", ""))
 if __name__ == "__main__":
     main()
